@@ -329,7 +329,7 @@ def features(src: str) -> set[str]:
     for node in ast.walk(tree):
         if isinstance(node, ast.For) and isinstance(node.target, ast.Name):
             tv = node.target.id
-            inside = {id(n) for n in ast.walk(node)}
+            inside = {id(n) for st_ in node.body for n in ast.walk(st_)} | {id(node.target)}
             for n in ast.walk(tree):
                 if isinstance(n, ast.Name) and n.id == tv and id(n) not in inside:
                     tags.add("loopvar_live")
